@@ -59,13 +59,16 @@ type Contract struct {
 	Pos         string
 	GhostOut    []string
 	Ghosts      []*GhostStmt
+	AtCall      map[string][]*Clause // extra preconditions this function imposes on its calls to a given callee
+	RelyMod     []string  // rely modifies: what other goroutines may change at yield points
+	RelyEns     []*Clause // rely ensures: two-state facts about such a change (old = before, current = after)
 	DefParams   []string // define: parameter names
 	DefExpr     ast.Expr // define: body
 }
 
 var clauseKW = map[string]bool{"func": true, "closure": true, "iface": true, "extern": true, "typeinv": true, "lemma": true,
 	"results": true, "requires": true, "ensures": true, "modifies": true, "loop": true, "ghost": true, "trusted": true,
-	"strictslice": true, "pure": true, "maypanic": true, "flag": true, "props": true, "nooverflow": true, "property": true, "ghostout": true, "define": true, "is": true, "axiom": true}
+	"strictslice": true, "pure": true, "maypanic": true, "flag": true, "props": true, "nooverflow": true, "property": true, "ghostout": true, "define": true, "is": true, "axiom": true, "rely": true, "atcall": true, "fieldrange": true}
 
 var headRe = regexp.MustCompile(`^(requires|ensures|invariant|decreases)(\[[^\]]*\])?\s*(.*)$`)
 
@@ -76,6 +79,7 @@ type PropertyDecl struct {
 }
 
 type ContractSet struct {
+	FieldRange map[string][2]string // heap name -> assumed [lo, hi] of every value stored in that field
 	ByTarget map[string]*Contract
 	Order    []string
 	Props    map[string]*PropertyDecl
@@ -115,7 +119,7 @@ func parseTagLabel(s string) (tags []string, label, known string) {
 // loadContracts scans every *.go file of the given directories that carries
 // the verif build tag for //@ blocks.
 func loadContracts(dirs map[string]string) (*ContractSet, error) {
-	cs := &ContractSet{ByTarget: map[string]*Contract{}, Props: map[string]*PropertyDecl{}}
+	cs := &ContractSet{ByTarget: map[string]*Contract{}, Props: map[string]*PropertyDecl{}, FieldRange: map[string][2]string{}}
 	var pkgs []string
 	for p := range dirs {
 		pkgs = append(pkgs, p)
@@ -196,6 +200,13 @@ func (cs *ContractSet) addClause(cur **Contract, pkgPath, pos, text string) erro
 	}
 	rest := strings.TrimSpace(strings.TrimPrefix(text, kw))
 	switch kw {
+	case "fieldrange":
+		// fieldrange pkg.Struct.field lo hi   (an assumption, listed in the trusted base)
+		if len(fields) != 4 {
+			return fmt.Errorf("%s: fieldrange pkg.Struct.field lo hi", pos)
+		}
+		cs.FieldRange["F."+fields[1]] = [2]string{fields[2], fields[3]}
+		return nil
 	case "property":
 		// property C03 roots a, b, c
 		if len(fields) < 3 {
@@ -246,6 +257,8 @@ func (cs *ContractSet) addClause(cur **Contract, pkgPath, pos, text string) erro
 		if kw == "extern" {
 			c.Target = name
 			c.Trusted = true
+		} else if kw == "iface" && strings.Count(name, ".") >= 2 {
+			c.Target = strings.ReplaceAll(name, " ", "") // already package-qualified: pkg.Type.Method
 		} else {
 			c.Target = qualify(pkgPath, name)
 		}
@@ -290,6 +303,34 @@ func (cs *ContractSet) addClause(cur **Contract, pkgPath, pos, text string) erro
 			return fmt.Errorf("%s: %v", pos, err)
 		}
 		c.DefExpr = e
+	case "atcall":
+		// atcall <callee> requires[label] E
+		i := strings.Index(rest, " requires")
+		if i < 0 {
+			return fmt.Errorf("%s: atcall <callee> requires E", pos)
+		}
+		callee := strings.TrimSpace(rest[:i])
+		cl, err := mk("requires", strings.TrimSpace(rest[i+len(" requires"):]), 0)
+		if err != nil {
+			return err
+		}
+		if c.AtCall == nil {
+			c.AtCall = map[string][]*Clause{}
+		}
+		c.AtCall[callee] = append(c.AtCall[callee], cl)
+	case "rely":
+		switch {
+		case strings.HasPrefix(rest, "modifies"):
+			c.RelyMod = append(c.RelyMod, splitTop(strings.TrimSpace(strings.TrimPrefix(rest, "modifies")), ',')...)
+		case strings.HasPrefix(rest, "ensures"):
+			cl, err := mk("ensures", strings.TrimPrefix(rest, "ensures"), 0)
+			if err != nil {
+				return err
+			}
+			c.RelyEns = append(c.RelyEns, cl)
+		default:
+			return fmt.Errorf("%s: rely must be followed by modifies or ensures", pos)
+		}
 	case "ghostout":
 		for _, x := range strings.Split(rest, ",") {
 			c.GhostOut = append(c.GhostOut, strings.TrimSpace(x))
